@@ -148,6 +148,10 @@ class History:
         elif c == "noinscope":
             P.extensions = ["zzz"]
             P.write_config()
+        elif c == "emptyext":
+            # an explicit empty extension list: no file is in scope
+            P.extensions = []
+            P.write_config()
         elif c == "nomacros":
             with open(P.config_path, "w") as fh:
                 fh.write("---\nsource_dir: src\nrust:\n  structured: false\n")
